@@ -110,6 +110,8 @@ K_UPD_OTHER = "update-changed-non-actor-component"
 K_UPD_STEP = "update-step-not-along-actor-gradient"
 K_TEMP = "alpha-moves-in-wrong-direction"
 K_RAISE = "raises-for-batch-size>=2"
+K_INPUT = "caller-array-modified-in-place"
+K_OLD = "later-epoch-not-against-the-policy-at-entry"
 
 BOX = gym.spaces.Box(np.array([-1.0, 0.0], np.float32), np.array([2.0, 3.0], np.float32))
 ALPHA3 = [-2.0, 0.0, 1.0]
@@ -365,6 +367,29 @@ def work_pg(item, col):
                     if vkind == "shared":
                         col.outcome("pg_cases_with_parameter_sharing_baseline")
 
+    # (3b) the same entry point called eagerly with NumPy arrays (what discounted_reward_to_go returns), twice on the same
+    # batch: the arguments are inputs - the second use of the batch sees the same numbers and gives the same result
+    gd_np = np.array([0.5**t for t in range(N)], dtype=np.float64)
+    for vkind in ["none", "mlp"]:
+        vf = make_v(vkind, policy, pseed(item, pv, 5))
+        b = np.zeros(N) if vf is None else f64(vf(obs)).reshape(-1)
+        for dt, R in itertools.product((np.float64, np.float32), list(itertools.product(ALPHA3, repeat=N))[:: 1 if N < 3 else 4]):
+            R_np, g_np = np.array(R, dtype=dt), gd_np.astype(dt)
+            before = (R_np.tobytes(), g_np.tobytes())
+            w64 = (np.array(R) - b) * gd_np
+            e = "reinforce_gradient"
+            for use in (1, 2):
+                case = ("R", R, "baseline", vkind, "numpy", np.dtype(dt).name, "use", use)
+                ok, r = guarded(col, e, N, dict(base, case=case), lambda: RF.reinforce_gradient(policy, vf, obs, act, R_np, g_np))
+                if not ok:
+                    break
+                compare(e, case, w64, r[0], r[1])
+                col.tick(1)
+                col.outcome("pg_numpy_argument_calls")
+                if (R_np.tobytes(), g_np.tobytes()) != before:
+                    col.violation(SIG.format(e, K_INPUT), dict(base, case=case, returns_before=list(R), returns_after=R_np.tolist(), discount_after=g_np.tolist()))
+                    break
+
     # (4) one-step actor-critic: w = gamma^t (r + gamma v(o') - v(o))
     f_ac = nnx.jit(lambda p, v, o, a, no, r, gd, g: AC.actor_critic_policy_gradient(p, v, o, a, no, r, gd, g))
     gd = np.array([0.5**t for t in range(N)])
@@ -467,7 +492,7 @@ def work_ppo(item, col):
     V32 = jnp.reshape(critic(obs), (-1,))
     V = f64(V32)
     zeros = jnp.zeros(N, dtype=jnp.float32)
-    f_vg = nnx.jit(nnx.value_and_grad(PPO.ppo_loss, argnums=(0, 1)))
+    f_vg = nnx.jit(nnx.value_and_grad(getattr(PPO.ppo_loss, "_c12_orig", PPO.ppo_loss), argnums=(0, 1)))
     r_grad = nnx.jit(nnx.grad(ppo_ref, argnums=(0, 1)))
     no_mask = jnp.zeros(N, dtype=bool)
 
@@ -564,6 +589,69 @@ def work_ppo(item, col):
                 col.outcome("ppo_cases_with_unfavoured_side_outside_sample", int((outside & ~fav).any()))
                 col.outcome("ppo_cases_at_unchanged_policy", int(all(p == 0 for p in place)))
     col.sample(dict(item=item["name"], logp=lp, values=V, cases=n_case, c_v=cv, c_e=ce))
+    ppo_epochs(item, col, head, N, pv, seed, cshape)
+
+
+_PPO_CALLS = []
+
+
+def _ppo_capture():
+    """Wraps the module-level name ppo.ppo_loss once per process (update_ppo is jitted: a trace keeps the wrapper it was made
+    with); every evaluation reports the arrays it was given to _PPO_CALLS."""
+    import inspect
+
+    if not getattr(PPO.ppo_loss, "_c12_wrapped", False):
+        orig = PPO.ppo_loss
+        sig = inspect.signature(orig)
+
+        def wrapped(*a, **k):
+            b = sig.bind(*a, **k).arguments
+            names = list(b)
+            # positional layout of ppo_loss: actor, critic, old log-probabilities, observations, actions, advantages, returns
+            jax.debug.callback(lambda *xs: _PPO_CALLS.append(tuple(np.asarray(x) for x in xs)) if len(_PPO_CALLS) < 64 else None, *[b[n] for n in names[2:7]])
+            return orig(*a, **k)
+
+        wrapped._c12_wrapped = True
+        wrapped._c12_orig = orig
+        PPO.ppo_loss = wrapped
+    return _PPO_CALLS
+
+
+def ppo_epochs(item, col, head, N, pv, seed, cshape):
+    """update_ppo with several epochs: every epoch optimises the surrogate against the SAME old policy (the one at
+    entry) with the same advantages and returns; observed through the arguments ppo_loss receives."""
+    entry = "update_ppo"
+    calls = _ppo_capture()
+    for epochs, lr in ((2, 0.5), (3, 0.1)):
+        actor = make_actor(head, pseed(item, pv), pv)
+        critic = make_critic(cshape, pseed(item, pv, 1))
+        obs, nobs, act = make_batch(head, N, seed)
+        oa = nnx.Optimizer(actor, optax.sgd(lr), wrt=nnx.Param)
+        oc = nnx.Optimizer(critic, optax.sgd(lr), wrt=nnx.Param)
+        lp0 = np.asarray(actor.log_probability(obs, act))
+        rew = f32([ALPHA3[(i + seed) % 3] for i in range(N)])
+        term = jnp.asarray([(i == N - 1) for i in range(N)])
+        nv = jnp.reshape(critic(nobs), (-1,))
+        calls.clear()
+        ok, _ = guarded(col, entry, N, dict(item=item["name"], epochs=epochs), lambda: PPO.update_ppo(actor, critic, oa, oc, obs, act, rew, term, nv, epochs=epochs))
+        jax.effects_barrier()
+        if not ok:
+            continue
+        col.tick(epochs, (item["name"], entry, epochs))
+        col.outcome("ppo_multi_epoch_updates")
+        if len(calls) < epochs:
+            col.outcome("ppo_multi_epoch_updates_not_observed(ppo_loss captured at import time)")
+            continue
+        moved = not np.array_equal(np.asarray(actor.log_probability(obs, act)), lp0)
+        if moved:
+            col.outcome("ppo_multi_epoch_updates_where_the_policy_moved")
+        for e, c in enumerate(list(calls)):
+            if not np.allclose(c[0].reshape(-1), lp0.reshape(-1), rtol=0, atol=1e-6):
+                col.violation(SIG.format(entry, K_OLD), dict(item=item["name"], epochs=epochs, epoch=e, old_logps_passed=c[0], logp_of_policy_at_entry=lp0))
+                break
+            if any(not np.array_equal(x, y) for x, y in zip(c[1:], calls[0][1:])):
+                col.violation(SIG.format(entry, K_OLD), dict(item=item["name"], epochs=epochs, epoch=e, what="observations / actions / advantages / returns differ between epochs"))
+                break
 
 
 # -- dpg family ------------------------------------------------------------------------------
